@@ -9,5 +9,5 @@ sed "s#@REPO@#${VERIF_REPO:-/repo}#" harness/go.mod.in > harness/go.mod
 cp "${VERIF_REPO:-/repo}/go.sum" harness/go.sum
 (cd harness && go build -tags verif -o ../.build/harness .)
 .build/harness facts "${VERIF_REPO:-/repo}" > lean/Bch/Generated/Facts.lean.new && mv lean/Bch/Generated/Facts.lean.new lean/Bch/Generated/Facts.lean
-(cd lean && lake build Bch Bch.Audit Bch.Tie bchmodel $(ls Bch/Props/C??.lean | sed "s#Bch/Props/\(C..\).lean#Bch.Props.\1#"))
+(cd lean && lake build Bch Bch.Audit Bch.Tie bchmodel $(ls Bch/Props/C??*.lean | sed "s#Bch/Props/\(C[0-9A-Za-z]*\).lean#Bch.Props.\1#"))
 echo setup done
